@@ -28,6 +28,9 @@ impl Scenario for C16 {
             Tier::Thorough => 6 * OPS.len() as u64 * 56 + 4000,
         }
     }
+    fn required_probes(&self, _tier: Tier) -> Vec<&'static str> {
+        vec!["fault:rng-fail:os-errno:one-draw", "fault:rng-fail:os-errno:outage", "fault:rng-fail:unsupported:one-draw", "fault:rng-fail:custom-code:one-draw"]
+    }
     fn rule(&self) -> String {
         "run i = (backend, operation kind, repetition): fault enumeration = the operation executed fault-free to count its draws d, then with the random source failing at every draw index 0..d+1 (clean failure and failure after a partial garbage fill), each followed by a healthy repetition that must succeed; histories = N consecutive operations in Tagged RNG mode where every nonce/salt/ephemeral key/key must equal (or be the spec function of) a draw made inside that very operation and no two outputs may share one. distinct = (backend, operation, rng mode, outcome class)".into()
     }
@@ -156,7 +159,7 @@ fn gen_one(seed: u64, run: u64, tier: Tier, bk: Bk, op: &str, rep: u64) -> Plan 
         };
         for k in idxs {
             let s = b.ev_seed();
-            one(&mut b, RngSpec::Fail { at: k, partial: 0, seed: s });
+            one(&mut b, RngSpec::Fail { at: k, partial: 0, seed: s, repeat: 0, code: 0 });
         }
         let r = b.healthy_rng();
         one(&mut b, r);
@@ -191,11 +194,22 @@ fn gen_one(seed: u64, run: u64, tier: Tier, bk: Bk, op: &str, rep: u64) -> Plan 
     for k in 0..max_draws {
         for partial in [0u32, 1, 7, 1000] {
             let s = b.ev_seed();
-            one(&mut b, RngSpec::Fail { at: k, partial, seed: s });
+            one(&mut b, RngSpec::Fail { at: k, partial, seed: s, repeat: 0, code: 0 });
             // liveness once the fault stops: the next healthy operation succeeds
             let r = b.healthy_rng();
             one(&mut b, r);
         }
+        // what the source reports, and for how long: operating-system errors (EAGAIN, EINTR, EPERM, EIO,
+        // ENOSYS), getrandom's own UNSUPPORTED / UNEXPECTED; a single failed draw, a few in a row, an
+        // outage for the rest of the call
+        for code in [11i32, 4, 1, 5, 38, -1, -2] {
+            for repeat in [0u32, 2, 9, u32::MAX] {
+                let s = b.ev_seed();
+                one(&mut b, RngSpec::Fail { at: k, partial: 0, seed: s, repeat, code });
+            }
+        }
+        let r = b.healthy_rng();
+        one(&mut b, r);
     }
     b.finish()
 }
